@@ -244,6 +244,7 @@ pub enum Op {
     /// the embedder held the shared storage mutex during the poll that starts here
     EmbedderHoldsStorage,
     EmbedderHoldsAppSet,
+    EmbedderChangedApps,
     StreamEnd,
     ControlIssue { req: usize, handle: usize, on_demand: bool },
     ControlReply { req: usize, reply: &'static str },
@@ -431,6 +432,12 @@ pub struct Script {
     pub busy_storage_mask: u32,
     /// the same for the shared app set mutex
     pub busy_app_set_mask: u32,
+    /// the embedder changes the shared app set (cohort hint, day number of every app) when the n-th wait_for of a
+    /// life is armed (n from 1): e.g. during the backoff between two attempts
+    pub embedder_changes_apps_at_wait: Option<usize>,
+    /// two bits per HTTP exchange (index mod 16): 0 no Content-Type header on the reply, 1 text/html, 2
+    /// application/json, 3 TEXT/HTML plus Content-Length: 0 and a cache header
+    pub content_type_mask: u32,
 }
 
 impl Default for Script {
@@ -461,6 +468,8 @@ impl Default for Script {
             junk_service_url: false,
             busy_storage_mask: 0,
             busy_app_set_mask: 0,
+            embedder_changes_apps_at_wait: None,
+            content_type_mask: 0,
         }
     }
 }
